@@ -67,6 +67,9 @@ def _states_base(tier, seed):
                 if tier == "quick" and proj == "electron" and kind != "F3":
                     continue
                 out.append({"t": "cc", "hq": hq, "Q2": q2, "variant": lab, "x": x, "kind": kind, "projectile": proj})
+                # the same point through the *_total observable: charm, bottom and top kernels side by side in one kinematic point, each at its own xi
+                if lab in ("xi=0.5", "xi=1+", "xi=1-") and proj == "neutrino" and kind != "FL":
+                    out.append({"t": "cc", "hq": hq, "Q2": q2, "variant": lab, "x": x, "kind": kind, "projectile": proj, "obs": "total"})
     return out
 
 
@@ -273,7 +276,7 @@ def _cc(st):
     m = MASSES[st["hq"]]
     q2, x = st["Q2"], st["x"]
     xi_ref = x * (1.0 + m * m / q2)
-    name = cards.obsname(st["kind"], st["hq"])
+    name = cards.obsname(st["kind"], st.get("obs", st["hq"]))
     cell = {"scheme": "FFNS3", "process": "CC", "projectile": st["projectile"], "pto": 1, "theory": _theory(st), "grid": st.get("grid", "G6")}
     try:
         r = yrun.runner(cell, {name: [cards.kin(x, q2)]})
@@ -324,7 +327,7 @@ def _cc(st):
     worst = 0.0
     for o in (0, 1):
         val, err = T[(o, 0, 0, 0)]
-        if xi_ref >= 1 - 1e-10:
+        if xi_ref >= 1 - 1e-10 and st.get("obs") != "total":
             # only the intrinsic rows could survive; non-heavy partons rows must vanish exactly
             rows = [yrun.PIDX[p] for p in yrun.PIDS if p == 21 or (p != 22 and abs(p) <= 3)]
             if np.any(val[rows] != 0.0):
